@@ -252,3 +252,59 @@ func VerifC10Detach() {
 		vassert(c10Count(evs, "hi", "start", "inner") == 1 && c10Count(evs, "hi", "end", "inner") == 1, "inner unit's own handler fires once for it")
 	}
 }
+
+// a node that hands on the rest of a partly read stream: attaching a handler (which gets its own copy of the
+// stream payloads) must not change what flows through the graph, and the handler sees exactly the node's output
+func VerifC10PartialStream() {
+	ctx := context.Background()
+	vcfg("fifo", 1)
+	vcfg("selectfirst", 1)
+	withHandler := vchoose("handler", 2) == 1
+	g := NewGraph[string, string]()
+	_ = g.AddLambdaNode("src", StreamableLambda(func(ctx context.Context, in string) (*schema.StreamReader[string], error) {
+		return schema.StreamReaderFromArray([]string{"header", "a", "b"}), nil
+	}))
+	_ = g.AddLambdaNode("strip", TransformableLambda(func(ctx context.Context, in *schema.StreamReader[string]) (*schema.StreamReader[string], error) {
+		_, _ = in.Recv()
+		return in, nil
+	}), WithNodeName("STRIP"))
+	_ = g.AddEdge(START, "src")
+	_ = g.AddEdge("src", "strip")
+	_ = g.AddEdge("strip", END)
+	r, err := g.Compile(ctx)
+	vassert(err == nil, "graph compiles")
+	seen := ""
+	var opts []Option
+	if withHandler {
+		h := callbacks.NewHandlerBuilder().OnEndWithStreamOutputFn(func(ctx context.Context, info *callbacks.RunInfo, out *schema.StreamReader[callbacks.CallbackOutput]) context.Context {
+			defer out.Close()
+			for i := 0; i < 8; i++ {
+				c, err := out.Recv()
+				if err != nil {
+					break
+				}
+				if info.Name == "STRIP" {
+					s, _ := c.(string)
+					seen += s
+				}
+			}
+			return ctx
+		}).Build()
+		opts = append(opts, WithCallbacks(h))
+	}
+	sr, e := r.Stream(ctx, "go", opts...)
+	vassert(e == nil, "stream run starts")
+	got := ""
+	for i := 0; i < 8; i++ {
+		c, err := sr.Recv()
+		if err != nil {
+			break
+		}
+		got += c
+	}
+	sr.Close()
+	vassert(got == "ab", "stream payload copies handed to handlers do not disturb the data flowing through the graph")
+	if withHandler {
+		vassert(seen == "ab", "the handler receives the payload the unit produced")
+	}
+}
